@@ -1603,6 +1603,9 @@ func (gen *Generator) GeneratePackage(expressions []Sexp) error {
 	gen.Tail = false
 
 	gen.AddInstruction(AddScopeInstr{Name: pkgName})
+	// count the package scope, so that a break or continue
+	// leaving the body pops it too.
+	gen.scopes++
 	gen.AddInstruction(PushStackmarkInstr{sym: symPkgName})
 
 	if size > 1 {
@@ -1614,14 +1617,17 @@ func (gen *Generator) GeneratePackage(expressions []Sexp) error {
 		}
 	}
 
-	gen.Tail = oldtail
+	// the last form is not in tail position either: the package
+	// value is built from the scope after the body has run.
 	err := gen.Generate(expressions[size-1])
+	gen.Tail = oldtail
 	if err != nil {
 		return err
 	}
 	gen.AddInstruction(PopUntilStackmarkInstr{sym: symPkgName})
 	gen.AddInstruction(PopInstr(0)) // remove the stackmark itself now
 	gen.AddInstruction(PopScopeTransferToDataStackInstr{PackageName: pkgName})
+	gen.scopes--
 	return nil
 }
 
